@@ -474,7 +474,10 @@ def check_value_alphabet(ctx, tpl):
     ev = nt = 0
     work = os.path.join(core.scratch(), 'values.db')
     values = [('float', 2.5), ('negative float', -0.125), ('text', 'plain text'), ('unicode', 'µ-pore ✓'), ('bool', True), ('bool false', False),
-              ('int', 5), ('big int', 12345678901), ('numeric text', '5'), ('numeric text sci', '1e3'), ('text true', 'TRUE')]
+              ('int', 5), ('big int', 12345678901), ('numeric text', '5'), ('numeric text sci', '1e3'), ('text true', 'TRUE'),
+              # texts that merely resemble the store's own spelling of booleans / missing values
+              ('text True', 'True'), ('text false', 'false'), ('text true with blank', 'true '), ('text None', 'None'), ('text nan', 'nan'), ('text yes', 'yes'),
+              ('text with blanks', '  padded  '), ('empty text', '')]
     for vname, val in values:
         universe('fresh')
         shutil.copyfile(tpl, work)
